@@ -60,6 +60,13 @@ def _guard_conditions(fn_node: ast.AST, node: ast.AST, ifexp: bool = False) -> L
     (`if T: return / raise / continue / break` contributes (T, False) to everything behind it, exactly
     as the `else` of that if-statement would)"""
     out = []
+
+    def add(test: ast.AST, pol: bool) -> None:
+        # `not X` holding is X failing: one spelling, so that guards of a definition and of a use compare equal
+        while isinstance(test, ast.UnaryOp) and isinstance(test.op, ast.Not):
+            test, pol = test.operand, not pol
+        out.append((A.unparse(test), pol))
+
     child = node
     for anc in A.ancestors(node):
         for fld in ("body", "orelse", "finalbody"):
@@ -67,17 +74,17 @@ def _guard_conditions(fn_node: ast.AST, node: ast.AST, ifexp: bool = False) -> L
             if isinstance(seq, list) and child in seq:
                 for prev in reversed(seq[: seq.index(child)]):
                     if isinstance(prev, ast.If) and not prev.orelse and A.always_leaves(prev.body):
-                        out.append((A.unparse(prev.test), False))
+                        add(prev.test, False)
         if isinstance(anc, ast.If):
             if child in anc.body:
-                out.append((A.unparse(anc.test), True))
+                add(anc.test, True)
             elif child in anc.orelse:
-                out.append((A.unparse(anc.test), False))
+                add(anc.test, False)
         elif ifexp and isinstance(anc, ast.IfExp):
             if child is anc.body:
-                out.append((A.unparse(anc.test), True))
+                add(anc.test, True)
             elif child is anc.orelse:
-                out.append((A.unparse(anc.test), False))
+                add(anc.test, False)
         if anc is fn_node:
             break
         child = anc
